@@ -11,7 +11,7 @@ from vt.pyvc.termvc import Arr, lift, uf
 
 R = z3.RealSort()
 B = z3.BoolSort()
-TOQITO_RET = {"pretty_good_measurement": (Arr, Arr, Arr), "state_distinguishability": (R, Arr), "state_exclusion": (R, Arr), "is_positive_semidefinite": B, "is_hermitian": B, "is_identity": B, "is_herm_preserving": B, "is_completely_positive": B, "is_trace_preserving": B, "kraus_to_choi": Arr, "completely_bounded_trace_norm": R, "dual_channel": Arr, "trace_norm": R, "fidelity": R, "partial_transpose": Arr, "to_density_matrix": Arr, "is_ppt": z3.BoolSort(), "hilbert_schmidt_inner_product": R, "partial_trace": Arr, "purity": R, "calculate_vector_matrix_dimension": R, "vectors_to_gram_matrix": Arr, "symmetric_projection": Arr}
+TOQITO_RET = {"pretty_good_measurement": (Arr, Arr, Arr), "state_distinguishability": (R, Arr), "state_exclusion": (R, Arr), "is_positive_semidefinite": B, "is_hermitian": B, "is_identity": B, "is_herm_preserving": B, "is_completely_positive": B, "is_trace_preserving": B, "kraus_to_choi": Arr, "completely_bounded_trace_norm": R, "dual_channel": Arr, "trace_norm": R, "fidelity": R, "partial_transpose": Arr, "to_density_matrix": Arr, "is_ppt": z3.BoolSort(), "hilbert_schmidt_inner_product": R, "partial_trace": Arr, "purity": R, "calculate_vector_matrix_dimension": R, "vectors_to_gram_matrix": Arr, "symmetric_projection": Arr, "pauli": Arr}
 
 
 def pred(text, env):
@@ -316,5 +316,10 @@ CONTRACTS = {
     "measure": ("toqito/measurement_ops/measure.py", [("state", "arr"), ("measurement", "arr"), ("tol", "real"), ("state_update", True)], ["is_density(state)", "not isinstance(measurement, (list, tuple))"],
                 lambda e: (lambda res: (lambda pr: (pr, z3.If(pr > e["tol"], uf("div", Arr, res, pr), uf("np.zeros_like", Arr, e["state"]))))(uf("np.trace", R, res)))(mm(mm(e["measurement"], e["state"]), dag(e["measurement"]))),
                 "measure(rho, K, tol, state_update=True) == (p, K rho K^dagger / p if p > tol else 0) with p = Tr(K rho K^dagger)  (single-operator form; Born rule and Lueders update)"),
+    "concurrence": ("toqito/state_props/concurrence.py", [("rho", "arr")], ["not rho.shape != (4, 4)"],
+                    lambda e: (lambda lam: (lambda v: z3.If(v >= 0, v, z3.RealVal(0)))(uf("item[0]", R, lam) - uf("item[1]", R, lam) - uf("item[2]", R, lam) - uf("item[3]", R, lam)))(
+                        (lambda yy: uf("reversed", Arr, uf("np.sort", Arr, uf("np.abs", Arr, uf("np.sqrt", Arr, uf("np.linalg.eigvals", Arr, mm(e["rho"], mm(mm(yy, uf("conj", Arr, e["rho"])), yy))))))))(
+                            uf("np.kron", Arr, tq("pauli", Arr, consts=["ind='Y'", "is_sparse=False"]), tq("pauli", Arr, consts=["ind='Y'", "is_sparse=False"])))),
+                    "concurrence(rho) == max(0, l1 - l2 - l3 - l4) with l the decreasingly sorted |sqrt| of the eigenvalues of rho (Y (x) Y) conj(rho) (Y (x) Y)  (Wootters)"),
     "purity": ("toqito/state_props/purity.py", [("rho", "arr")], ["is_density(rho)"], lambda e: uf("np.real", R, tr(uf("np.linalg.matrix_power[2]", Arr, e["rho"]))), "purity == Re Tr(rho^2)"),
 }
